@@ -281,6 +281,8 @@ func workerMain(spec Spec, fams []Family) {
 	var deadline time.Time
 	if *flagDeadline > 0 {
 		deadline = time.Now().Add(*flagDeadline)
+		// schedule explorations inside one case stop at the same deadline
+		os.Setenv("VLIB_DEADLINE_UNIX", strconv.FormatInt(deadline.Unix(), 10))
 	}
 	var prog *os.File
 	if *flagCareful != "" {
@@ -314,7 +316,7 @@ func workerMain(spec Spec, fams []Family) {
 		if i < from {
 			continue
 		}
-		if !deadline.IsZero() && n&255 == 0 && time.Now().After(deadline) {
+		if !deadline.IsZero() && time.Now().After(deadline) {
 			r.Capped = true
 			break
 		}
